@@ -39,7 +39,7 @@ func checkC14(w *World, c *Check) {
 		"the query of a URL is a finite multimap from key to a list of values; the executor runs the real comparison loops on multimaps with up to 2 keys x up to 2 values per key (bounded), the values being arbitrary strings",
 		"go/types + go/ssa; SMT solvers' unsat answers")
 	c.Assume = append(c.Assume,
-		"NOT decided here: that the string fast path (fragment/scheme stripping + EqualFold) agrees with the URL slow path, dot segments/case in real URL strings, and exact coincidence with a reference normaliser — these need the concrete semantics of net/url (see DESIGN.md §12); the stripping helpers are byte-level code outside the subset",
+		"NOT decided here: that the string fast path (fragment/scheme stripping + EqualFold) agrees with the URL slow path, dot segments/case in real URL strings, and exact coincidence with a reference normaliser — these need the concrete semantics of net/url (see DESIGN.md §14.5); inside IRI.Equals the stripping helpers are used by their contract (group C14/strip)",
 		"decided: reflexivity and symmetry of IRI.Equals (fast path unbounded; slow path with bounded queries), that the slow path depends on the arguments only through scheme (when asked), folded host with port, folded cleaned path and the query multimap, and that IRIs.Contains agrees with Equals (C13 contract)")
 	fn := w.Method("IRI", "Equals")
 	mk := func() (*Exec, *State) {
@@ -145,6 +145,25 @@ func checkC14(w *World, c *Check) {
 			})
 		}
 	}
+	// ---- the two stripping helpers: where the string is cut ----
+	guard(c, "C14/strip", func() {
+		ex := w.NewExec()
+		st := newState()
+		u := Var("u", SStr)
+		frag := ex.Call(st, w.Func("stripFragment"), []Value{u}, nil).(*Term)
+		sch := ex.Call(st, w.Func("stripScheme"), []Value{u}, nil).(*Term)
+		ih := App("strings.Index", SInt, u, StrLit("#"))
+		is := App("strings.Index", SInt, u, StrLit("://"))
+		common := append([]*Term{ex.NoPanic()}, ex.assumes...)
+		cut := func(lo, hi *Term) *Term { return App("sslice", SStr, u, lo, hi) }
+		c.Add(&Obligation{Name: "C14/strip/fragment-cut-at-the-first-hash", Group: "C14/strip", Common: common, Hyps: []*Term{Gt(ih, IntLit(0)), Lt(ih, SLen(u))}, Goal: Eq(frag, cut(IntLit(0), ih)), Pos: "stripFragment", Funcs: []string{"stripFragment"}, Replay: c14Replay})
+		c.Add(&Obligation{Name: "C14/strip/no-fragment-keeps-the-string", Group: "C14/strip", Common: common, Hyps: []*Term{Le(ih, IntLit(0))}, Goal: Eq(frag, u), Pos: "stripFragment", Funcs: []string{"stripFragment"}, Replay: c14Replay})
+		c.Add(&Obligation{Name: "C14/strip/scheme-cut-at-the-first-separator", Group: "C14/strip", Common: common, Hyps: []*Term{Gt(is, IntLit(0))}, Goal: Eq(sch, cut(is, SLen(u))), Pos: "stripScheme", Funcs: []string{"stripScheme"}, Replay: c14Replay})
+		c.Add(&Obligation{Name: "C14/strip/no-scheme-keeps-the-string", Group: "C14/strip", Common: common, Hyps: []*Term{Le(is, IntLit(0))}, Goal: Eq(sch, u), Pos: "stripScheme", Funcs: []string{"stripScheme"}, Replay: c14Replay})
+		for i, p := range ex.panics {
+			c.Add(&Obligation{Name: fmt.Sprintf("C14/strip/nopanic/%s#%d", p.Kind, i), Group: "C14/strip", Common: ex.assumes, Goal: Not(p.C), Pos: p.Pos, Funcs: []string{"stripFragment", "stripScheme"}})
+		}
+	})
 	// transitivity at component level: the component rule is an intersection of equivalences
 	{
 		x, y, z := Var("x", SStr), Var("y", SStr), Var("z", SStr)
